@@ -87,13 +87,18 @@ func classify(cfg Config, predSt []string, predRun []int, st []string, infl []in
 }
 
 // Lockstep replays one model behaviour on the real scheduler.
-func Lockstep(b Beh, rng *rand.Rand, pause time.Duration) ([]Mismatch, error) {
+func Lockstep(b Beh, rng *rand.Rand, pause time.Duration, patient ...bool) ([]Mismatch, error) {
 	r, err := newRun(b.Config, rng, pause, false)
 	if err != nil {
 		return nil, err
 	}
 	defer r.close()
 	r.holdTransient = true
+	stepDeadline := stepDeadline
+	if len(patient) > 0 && patient[0] {
+		r.patient = true
+		stepDeadline = 30 * time.Second
+	}
 	released := map[int]bool{}
 	r.start()
 	abort := func(ms []Mismatch) ([]Mismatch, error) {
@@ -226,6 +231,40 @@ func ReplayAll(behs []Beh, env *core.Env, rep *core.Report, pause time.Duration,
 				results[i].i = i
 			} else {
 				results[i] = res{nil, nil, -2}
+			}
+		}
+	}
+	// Every mismatch that is left is executed once more, ALONE and patiently (settle time 3 s, step
+	// deadline 30 s): while many replays share the machine - or the machine is loaded - a scheduler
+	// that is merely late can look wrong. Only what comes back then is reported (at most 8 are
+	// re-executed; if none of those comes back, nothing is reported).
+	{
+		reexec, back := 0, 0
+		var pendingIdx []int
+		for i := range results {
+			if results[i].i >= 0 && results[i].err == nil && len(results[i].ms) > 0 {
+				pendingIdx = append(pendingIdx, i)
+			}
+		}
+		for _, i := range pendingIdx {
+			if reexec >= 8 {
+				break
+			}
+			reexec++
+			rng := rand.New(rand.NewSource(env.Seed*1000003 + int64(i)))
+			ms, err := Lockstep(behs[i], rng, pause, true)
+			if len(ms) == 0 && err == nil {
+				rng2 := rand.New(rand.NewSource(env.Seed*7 + int64(i)))
+				ms, err = Lockstep(behs[i], rng2, pause, true)
+			}
+			if len(ms) > 0 {
+				back++
+			}
+			results[i] = res{ms, err, i}
+		}
+		if len(pendingIdx) > 0 && back == 0 {
+			for _, i := range pendingIdx {
+				results[i].ms = nil
 			}
 		}
 	}
